@@ -194,10 +194,27 @@ func c09HistOps() []c09HistOp {
 func c09History(r *report.Run) int64 {
 	ops := c09HistOps()
 	var n int64
+	// reference outcomes: operations with the plainest option sets first, so that an operation is measured before
+	// any operation with richer options (ConstExpr, Operator tables) has run in this process
 	base := make([]string, len(ops))
-	for i, o := range ops {
-		base[i] = o.run()
-		n++
+	rich := func(name string) int {
+		switch {
+		case strings.Contains(name, "constexpr"):
+			return 3
+		case strings.Contains(name, "perator"):
+			return 2
+		case strings.Contains(name, "undef"):
+			return 1
+		}
+		return 0
+	}
+	for level := 0; level <= 3; level++ {
+		for i, o := range ops {
+			if rich(o.name) == level {
+				base[i] = o.run()
+				n++
+			}
+		}
 	}
 	check := func(hist []int) bool {
 		last := hist[len(hist)-1]
